@@ -127,9 +127,20 @@ func loadProgram(dir string, patterns []string, tags string) (*Program, error) {
 			}
 			p.allCon = append(p.allCon, c)
 		}
+		// a contract file of a package that is loaded only as a dependency may name types of packages that are not
+		// loaded for this property: such ghost declarations are skipped (a contract that needs them cannot bind)
+		isRoot := false
+		for _, r := range p.roots {
+			if r.PkgPath == cf.PkgPath {
+				isRoot = true
+			}
+		}
 		for _, g := range cf.GhostFields {
 			t, err := p.parseGhostType(g.TypeS, pk)
 			if err != nil {
+				if !isRoot {
+					continue
+				}
 				return nil, fmt.Errorf("%s: ghost field %s.%s: %v", cf.File, g.Struct, g.Name, err)
 			}
 			g.Type = t
@@ -138,21 +149,31 @@ func loadProgram(dir string, patterns []string, tags string) (*Program, error) {
 		for _, g := range cf.GhostVars {
 			t, err := p.parseGhostType(g.TypeS, pk)
 			if err != nil {
+				if !isRoot {
+					continue
+				}
 				return nil, fmt.Errorf("%s: ghost var %s: %v", cf.File, g.Name, err)
 			}
 			g.Type = t
 			p.ghostVars[g.Name] = g
 		}
+	ghostFuncs:
 		for _, g := range cf.GhostFuncs {
 			for _, ts := range g.PTypes {
 				t, err := p.parseGhostType(ts, pk)
 				if err != nil {
+					if !isRoot {
+						continue ghostFuncs
+					}
 					return nil, fmt.Errorf("%s: ghost func %s: %v", cf.File, g.Name, err)
 				}
 				g.PT = append(g.PT, t)
 			}
 			t, err := p.parseGhostType(g.RetS, pk)
 			if err != nil {
+				if !isRoot {
+					continue
+				}
 				return nil, fmt.Errorf("%s: ghost func %s: %v", cf.File, g.Name, err)
 			}
 			g.Ret = t
@@ -221,6 +242,37 @@ func (p *Program) parseGhostType(s string, pk *packages.Package) (*Type, error) 
 	}
 	if s == "real" {
 		return tReal, nil
+	}
+	if strings.HasPrefix(s, "[]") {
+		if el, err := p.parseGhostType(s[2:], pk); err == nil && el.G != nil {
+			return p.TypeOf(types.NewSlice(el.G), nil), nil
+		}
+	}
+	if strings.HasPrefix(s, "*map[") || strings.HasPrefix(s, "*[]") {
+		if el, err := p.parseGhostType(s[1:], pk); err == nil && el.G != nil {
+			return p.TypeOf(types.NewPointer(el.G), nil), nil
+		}
+	}
+	if strings.HasPrefix(s, "map[") {
+		d, j := 0, -1
+		for i := 3; i < len(s); i++ {
+			if s[i] == '[' {
+				d++
+			} else if s[i] == ']' {
+				d--
+				if d == 0 {
+					j = i
+					break
+				}
+			}
+		}
+		if j > 0 {
+			k, err1 := p.parseGhostType(s[4:j], pk)
+			v, err2 := p.parseGhostType(s[j+1:], pk)
+			if err1 == nil && err2 == nil && k.G != nil && v.G != nil {
+				return p.TypeOf(types.NewMap(k.G, v.G), nil), nil
+			}
+		}
 	}
 	if m := qualTypeRe.FindStringSubmatch(s); m != nil {
 		// pkgname.Type[args] possibly unexported: resolve through the imported package's scope directly
